@@ -34,8 +34,17 @@ independent core and EVERY choice of marrow's conversions (`Core`, `Conv` are pa
                         (`decide` on `SaModel/Generated/ArrowVersions.lean`; these break when a version is
                         added to, or dropped from, one of the lists only)
 
-The hypotheses `hA`, `hB`, `hV…` speak about marrow's conversions, which are not modelled: they are validated
-by the `backend` suite on every run (differential testing), not proved.
+The hypotheses speak about code that is not modelled; they are validated by the `backend` suite on every run (differential
+testing), not proved:
+  hA, hB   (`backend_content`, `backends_agree`, `builder_finishers_agree`; `builder_reuse_decodes` in Props/C19Reuse.lean) a
+           converted array decodes to what the marrow array decodes to: `cv.arrayOfMarrow a = ok aa → decodeA aa = Spec.decodeAll a`
+  hFRT     (`record_batch_fields_oneshot`, `from_batch_needs_only_batch`) marrow field → back end → marrow field is the identity:
+           `cv.fieldOfMarrow f = ok af → cv.fieldToMarrow af = ok f`
+  hRT      (`roundtrip_through_backend`) viewing a converted array gives the marrow array back: `cv.viewOf aa = ok a`
+  hE       (`backends_agree_read`) the core reads views related by `E` alike (`E := Eq`: `backends_agree_read_eq`, no hypothesis)
+  Core.RefusesCounts   (marrow clause of `reader_count_mismatch_refused`, `readers_fail_together_on_counts`) `Deserializer::new`
+           refuses a different number of fields and arrays; proved for `Core.counted` (`counted_refuses`) and for
+           `Access.new true` (`access_new_refuses`)
 -/
 namespace SaModel.Props.C19
 open SaModel SaModel.Backend SaModel.Lemmas.C19
